@@ -617,14 +617,28 @@ pub fn generate(seed: u64, focus: &str, profile: Profile) -> Scenario {
     }
 
     // ---- one-shot resolver
+    let mut resolver_queries: Vec<(u64, String, bool)> = Vec::new();
     if (focus == "C14" && r.chance(1, 2)) || r.chance(1, 8) {
         let mut script = vec![(0, AppOp::SetTimeoutMs(*r.pick(&[50u64, 300, 1000])))];
         for _ in 0..1 + r.usize_below(3) {
             let at = t_in(&mut r, 100, duration_ms);
-            let n = labels_to_string(&owners[r.usize_below(owners.len())]);
-            script.push((at, if r.chance(1, 2) { AppOp::QueryAddress(n) } else { AppOp::QueryAddressPort(n) }));
+            // half of the queries go to a name some responder registers an SRV (or an address)
+            // under, so that they are answered and the resolver's follow-up paths run
+            let port = r.chance(1, 2);
+            let textual = |o: &Labels| !o.is_empty() && o.iter().all(|l| !l.contains(&b'.'));
+            let registered: Vec<&Rec> = resp_records.iter().flatten().filter(|x| x.rtype == if port { t::SRV } else { t::A } && x.class == 1 && textual(&x.owner)).collect();
+            let owner = if !registered.is_empty() && r.chance(2, 3) { registered[r.usize_below(registered.len())].owner.clone() } else { owners[r.usize_below(owners.len())].clone() };
+            let n = labels_to_string(&owner);
+            script.push((at, if port { AppOp::QueryAddressPort(n) } else { AppOp::QueryAddress(n) }));
         }
         script.sort_by_key(|x| x.0);
+        for (at, op) in &script {
+            match op {
+                AppOp::QueryAddress(n) => resolver_queries.push((*at, n.clone(), false)),
+                AppOp::QueryAddressPort(n) => resolver_queries.push((*at, n.clone(), true)),
+                _ => {}
+            }
+        }
         nodes.push(NodeSpec { kind: NodeKind::Resolver { asyncv: r.chance(1, 3) }, start_ms: 0, script });
     }
 
@@ -837,6 +851,45 @@ pub fn generate(seed: u64, focus: &str, profile: Profile) -> Scenario {
                 AppOp::SendMsg { msg: m, compress: r.chance(2, 3), unicast_to: None, exact: !hostile }
             };
             script.push((at, op));
+        }
+        // Answers for the one-shot resolver. It asks with id 0 and the unicast-response bit and
+        // reads only its multicast socket, so what it processes are id-0 responses sent to the
+        // group: the address directly, an SRV with the address next to it, an SRV alone (which
+        // starts the resolver's follow-up address query), answers for other names, on time or
+        // late with respect to the query's deadline.
+        for (at, name, port) in &resolver_queries {
+            if !r.chance(1, 2) {
+                continue;
+            }
+            let owner = name_from_str(name);
+            let host = if r.chance(1, 2) { owner.clone() } else { name_from_str("host.verif.local") };
+            let a = |o: &Labels, r: &mut Rng| Rec { owner: o.clone(), rtype: if r.chance(3, 4) { t::A } else { t::AAAA }, class: 1, cache_flush: r.chance(1, 4), ttl: 120, fields: vec![F::U32(0x0A00_0001 + r.below(200) as u32)] };
+            let mut m = MsgSpec { id: 0, flags: 0x8400, ..Default::default() };
+            if *port {
+                m.answers.push(Rec { owner: owner.clone(), rtype: t::SRV, class: 1, cache_flush: false, ttl: 120, fields: vec![F::U16(0), F::U16(0), F::U16(8000 + r.below(99) as u16), F::Name(host.clone(), Comp::Never)] });
+                match r.below(3) {
+                    0 => {}
+                    1 => {
+                        let x = a(&host, &mut r);
+                        m.additional.push(x);
+                    }
+                    _ => {
+                        let x = a(&owner, &mut r);
+                        m.additional.push(x);
+                    }
+                }
+            } else {
+                let x = if r.chance(3, 4) { a(&owner, &mut r) } else { a(&host, &mut r) };
+                m.answers.push(x);
+            }
+            // AAAA needs 16 bytes
+            for rec in m.answers.iter_mut().chain(m.additional.iter_mut()) {
+                if rec.rtype == t::AAAA {
+                    rec.fields = vec![F::U128(0xfe80_0000_0000_0000_0000_0000_0000_0001 + r.below(200) as u128)];
+                }
+            }
+            let delay = *r.pick(&[1u64, 5, 30, 49, 51, 120, 299, 301, 990, 1010, 1500]);
+            script.push((at + delay, AppOp::SendMsg { msg: m, compress: r.chance(1, 2), unicast_to: None, exact: !hostile }));
         }
         script.push((duration_ms, AppOp::Drain));
         script.sort_by_key(|x| x.0);
